@@ -27,7 +27,7 @@ use core::ops::Range;
 #[verifier::external_body] pub struct KIterator { _p: u8 }
 #[verifier::external_body] pub struct KObject { _p: u8 }
 #[verifier::external_body] pub struct ObjectRef { _p: u8 }
-#[verifier::external_body] pub struct RegisterSlice { _p: u8 }
+pub struct RegisterSlice { pub start: usize, pub count: usize }
 #[verifier::external_body] pub struct ValueKey { _p: u8 }
 #[verifier::external_body] pub struct ListDataRef { _p: u8 }
 #[verifier::external_body] pub struct MapDataRef { _p: u8 }
@@ -59,6 +59,9 @@ pub uninterp spec fn number_of_i64(i: i64) -> KNumber;
 // lists
 impl ListDataRef {
     pub uninterp spec fn view(&self) -> Seq<KValue>;
+    #[verifier::external_body] fn len(&self) -> (r: usize) ensures r == self@.len() { unimplemented!() }
+    // `data.get(i).cloned().unwrap_or(Null)`, rule R5
+    #[verifier::external_body] fn get_cloned_or_null(&self, i: usize) -> (r: KValue) ensures r == (if i < self@.len() { self@[i as int] } else { KValue::Null }) { unimplemented!() }
     // `data[i].clone()` (Index on the Vec: panics out of bounds), rule R5
     #[verifier::external_body] fn get_cloned(&self, i: usize) -> (r: KValue) requires i < self@.len() ensures r == self@[i as int] { unimplemented!() }   // @list_index_in_bounds
     // `KList::from_slice(&data[a..b])` (slicing panics out of bounds), rule R5
@@ -74,6 +77,7 @@ impl KTuple {
     pub uninterp spec fn elems(&self) -> Seq<KValue>;
     #[verifier::external_body] fn len(&self) -> (r: usize) ensures r == self.elems().len() { unimplemented!() }
     #[verifier::external_body] fn get_cloned(&self, i: usize) -> (r: KValue) requires i < self.elems().len() ensures r == self.elems()[i as int] { unimplemented!() }   // @tuple_index_in_bounds
+    #[verifier::external_body] fn get_cloned_or_null(&self, i: usize) -> (r: KValue) ensures r == (if i < self.elems().len() { self.elems()[i as int] } else { KValue::Null }) { unimplemented!() }
     #[verifier::external_body]
     fn make_sub_tuple(&self, r: Range<usize>) -> (o: Option<KTuple>)
         ensures (o is Some) == (r.start <= r.end && r.end <= self.elems().len()), o matches Some(t) ==> t.elems() == self.elems().subrange(r.start as int, r.end as int) { unimplemented!() }
@@ -96,6 +100,11 @@ impl KRange {
     #[verifier::external_body] fn indices(&self, max_index: usize) -> (r: Range<usize>) ensures r.start <= r.end <= max_index, r == self.sindices(max_index) { unimplemented!() }
     pub uninterp spec fn sindices(&self, max_index: usize) -> Range<usize>;
     #[verifier::external_body] fn start(&self) -> (r: Option<i64>) ensures r == self.sstart() { unimplemented!() }
+    pub uninterp spec fn send(&self) -> Option<(i64, bool)>;
+    pub uninterp spec fn scontains(&self, i: i64) -> bool;
+    #[verifier::external_body] fn end(&self) -> (r: Option<(i64, bool)>) ensures r == self.send() { unimplemented!() }
+    // `r.contains(i.into())`: PROVED exact in V-range
+    #[verifier::external_body] fn contains_i64(&self, i: i64) -> (r: bool) ensures r == self.scontains(i) { unimplemented!() }
     // V-range: the element count; a bounded range's last element start + size - 1 is an i64
     #[verifier::external_body] fn size(&self) -> (r: Option<usize>) ensures r == self.ssize(), r matches Some(n) ==> (self.sstart() matches Some(s) ==> s + n <= i64::MAX + 1) { unimplemented!() }
 }
@@ -121,13 +130,31 @@ impl KMap {
     #[verifier::external_body] fn data(&self) -> (r: MapDataRef) ensures r@ == self.entries() { unimplemented!() }
 }
 impl KObject { #[verifier::external_body] fn try_borrow(&self) -> Result<ObjectRef> { unimplemented!() } }
-impl ObjectRef { #[verifier::external_body] fn index(&self, i: &KValue) -> Result<KValue> { unimplemented!() } }
+impl ObjectRef {
+    #[verifier::external_body] fn index(&self, i: &KValue) -> Result<KValue> { unimplemented!() }
+    #[verifier::external_body] fn size(&self) -> Option<usize> { unimplemented!() }
+}
+// std / conversions (rule R5)
+#[verifier::external_body] fn i8_unsigned_abs(i: i8) -> (r: u8) ensures r as int == (if i >= 0 { i as int } else { -(i as int) }) { unimplemented!() }
+#[verifier::external_body] fn i64_try_from_i128(x: i128) -> (r: core::result::Result<i64, ()>)
+    ensures (r is Ok) == (i64::MIN <= x <= i64::MAX), r matches Ok(v) ==> v as int == x as int { unimplemented!() }
+// signed_index_to_unsigned: PROVED in V-index (these are its four clauses)
+pub open spec fn pos(index: i8, size: usize) -> usize {
+    if index >= 0 { index as usize } else if -(index as int) <= size { (size + index as int) as usize } else { 0 }
+}
+#[verifier::external_body] fn signed_index_to_unsigned(index: i8, size: usize) -> (r: usize) ensures r == pos(index, size), index < 0 ==> r <= size { unimplemented!() }
 pub struct Call { pub result: Option<u8>, pub instance: KValue, pub arg: KValue, pub op: KValue }
 pub struct KotoVm { pub pending: Ghost<Option<Call>> }
 """
 
 AFTER_ENUM = r"""
 impl Clone for KValue { #[verifier::external_body] fn clone(&self) -> (r: Self) ensures r == *self { unimplemented!() } }
+#[verifier::external_body] fn unexpected_type<T>(expected: &str, unexpected: &KValue) -> (r: Result<T>) ensures r is Err { unimplemented!() }
+// Option<KString> -> KValue (`.into()`: Some(s) is Str(s), None is Null), i8 / usize -> KValue; rule R5
+fn option_str_into_value(o: Option<KString>) -> (r: KValue) ensures r == (match o { Some(s) => KValue::Str(s), None => KValue::Null }) { match o { Some(s) => KValue::Str(s), None => KValue::Null } }
+pub uninterp spec fn value_of_i8(i: i8) -> KValue;
+#[verifier::external_body] fn i8_into_value(i: i8) -> (r: KValue) ensures r == value_of_i8(i) { unimplemented!() }
+#[verifier::external_body] fn usize_into_value(i: usize) -> KValue { unimplemented!() }
 // what a valid index is: not negative and (when the container has a size) below it
 spec fn valid_index(n: KNumber, size: Option<usize>) -> bool { !n.negative() && (size matches Some(s) ==> n.as_usize() < s) }
 """
@@ -135,6 +162,11 @@ spec fn valid_index(n: KNumber, size: Option<usize>) -> bool { !n.negative() && 
 VM_SPECS = r"""
     pub uninterp spec fn reg(&self, r: u8) -> KValue;
     #[verifier::external_body] fn clone_register(&self, r: u8) -> (v: KValue) ensures v == self.reg(r) { unimplemented!() }
+    #[verifier::external_body] fn get_register(&self, r: u8) -> (v: &KValue) ensures *v == self.reg(r) { unimplemented!() }
+    // the whole register file (temporary tuples address it directly)
+    pub uninterp spec fn raw(&self) -> Seq<KValue>;
+    // `self.registers[i].clone()` (Index on the Vec: panics out of bounds), rule R5
+    #[verifier::external_body] fn register_raw_cloned(&self, i: usize) -> (v: KValue) requires i < self.raw().len() ensures v == self.raw()[i as int] { unimplemented!() }   // @raw_register_in_bounds
     #[verifier::external_body]
     fn set_register(&mut self, r: u8, v: KValue) ensures final(self).reg(r) == v, final(self).pending == old(self).pending { unimplemented!() }
     #[verifier::external_body]
@@ -171,6 +203,32 @@ SPEC = "\n    ensures\n" + "".join([
     when("KValue::Range(rg)", "KValue::Number(n)", "rg.sstart() matches Some(st) ==> (valid_index(n, rg.ssize()) && n.as_usize() <= i64::MAX && st + n.as_usize() <= i64::MAX ==> r is Ok)", "range_element_in_range_is_ok"),
 ])
 
+TV = "old(self).reg(value)"
+TRES = "final(self).reg(result)"
+TEMP_SPEC = """
+    requires
+        // a temporary tuple addresses registers that exist (MakeTempTuple, bytecode well-formedness: C05)
+        old(self).reg(value) matches KValue::TemporaryTuple(rs) ==> rs.start + rs.count <= old(self).raw().len(),
+        old(self).raw().len() <= usize::MAX,
+    ensures
+        // C03: element `index` of a sequence; a negative index counts from the end (`(..., x, y)`
+        // patterns); past the end there is nothing: null (the pattern's size check decides the match)
+        %(v)s matches KValue::List(l) ==> r is Ok && %(res)s == (if pos(index, l.elems().len() as usize) < l.elems().len() { l.elems()[pos(index, l.elems().len() as usize) as int] } else { KValue::Null }),   // @list_element_or_null
+        %(v)s matches KValue::Tuple(t) ==> r is Ok && %(res)s == (if pos(index, t.elems().len() as usize) < t.elems().len() { t.elems()[pos(index, t.elems().len() as usize) as int] } else { KValue::Null }),   // @tuple_element_or_null
+        // a temporary tuple (how (key, value) pairs and multiple values travel) unpacks exactly like the
+        // tuple of the same elements
+        %(v)s matches KValue::TemporaryTuple(rs) ==> r is Ok && %(res)s == (if pos(index, rs.count) < rs.count { old(self).raw()[rs.start + pos(index, rs.count)] } else { KValue::Null }),   // @temporary_tuple_unpacks_like_a_tuple
+        // a plain map: entry `index` as a (key, value) tuple, or null
+        %(v)s matches KValue::Map(m) ==> (!m.meta().contains_key(MetaKey::ReadOp(ReadOp::Index)) ==> r is Ok && %(res)s == (if pos(index, m.entries().len() as usize) < m.entries().len()
+            { KValue::Tuple(pair_of(m.entries()[pos(index, m.entries().len() as usize) as int].0, m.entries()[pos(index, m.entries().len() as usize) as int].1)) } else { KValue::Null })),   // @map_entry_or_null
+        // C17: a map with @index: that function is called with (map, index)
+        %(v)s matches KValue::Map(m) ==> (m.meta().contains_key(MetaKey::ReadOp(ReadOp::Index)) && r is Ok ==>
+            final(self).pending@ == Some(Call { result: Some(result), instance: %(v)s, arg: value_of_i8(index), op: m.meta()[MetaKey::ReadOp(ReadOp::Index)] })),   // @metakey_function_called_with_map_and_index
+        // a range: start + index or end + index (computed without overflow), null when that is not an element
+        %(v)s matches KValue::Range(rg) ==> (r is Ok ==> (%(res)s is Null || (%(res)s matches KValue::Number(_)))),   // @range_element_or_null
+        %(v)s matches KValue::Range(rg) ==> (index >= 0 ==> (rg.sstart() matches Some(st) ==> r is Ok && (st + index <= i64::MAX && rg.scontains((st + index) as i64) ==> %(res)s == KValue::Number(number_of_i64((st + index) as i64))))),   // @range_element_from_start
+""" % dict(v=TV, res=TRES)
+
 UNIT = Unit(
     name="V-runindex",
     prelude=PRELUDE,
@@ -204,6 +262,23 @@ UNIT = Unit(
                (r"runtime_error!\(\s*\"index \(\{n\}\) is out of range\"\s*\)", "err_index_overflow()", None, "re"),
            ],
            spec=SPEC),
+        Fn(F, "impl KotoVm :: fn run_temp_index", props=("C03", "C01", "C06", "C17"),
+           subst=[
+               ("let index_op = ReadOp::Index.into();", "let index_op = read_key(ReadOp::Index);", None),
+               ("list.data().get(index).cloned().unwrap_or(Null)", "list.data().get_cloned_or_null(index)", None),
+               ("tuple.get(index).cloned().unwrap_or(Null)", "tuple.get_cloned_or_null(index)", None),
+               ("index.unsigned_abs()", "i8_unsigned_abs(index)", None),
+               (r"self\.registers\[(.*?)\]\.clone\(\)", r"self.register_raw_cloned(\1)", None, "re"),
+               (r"s\.with_bounds\((.*?)\)\.into\(\)", r"option_str_into_value(s.with_bounds(\1))", None, "re"),
+               (r"runtime_error!\(\s*\"Unable to index a \{\} with \{\}\",\s*lhs\.type_as_string\(\),\s*index,?\s*\)", "err_unable_to_index()", None, "re"),
+               ("i64::try_from(result)", "i64_try_from_i128(result)", None),
+               ("r.contains(result.into())", "r.contains_i64(result)", None),
+               ("=> result.into(),", "=> KValue::Number(i64_into_number(result)),", None),
+               ("lhs, index.into(), op", "lhs, i8_into_value(index), op", None),
+               ("Tuple(vec![key.value().clone(), value.clone()].into())", "Tuple(pair_tuple(key, value))", None),
+               ("o.index(&index.into())", "o.index(&usize_into_value(index))", None),
+           ],
+           spec=TEMP_SPEC),
     ],
     epilogue=r"""
 // ---- vacuity guard: MUST FAIL
